@@ -24,6 +24,7 @@ import (
 	"os"
 	"path"
 	"path/filepath"
+	"sort"
 	"strings"
 
 	"github.com/pkg/errors"
@@ -134,18 +135,32 @@ func (cfg *Configuration) renderResources(ch *chart.Chart, values chartutil.Valu
 	// text file. We have to spin through this map because the file contains path information, so we
 	// look for terminating NOTES.txt. We also remove it from the files so that we don't have to skip
 	// it in the sortHooks.
-	var notesBuffer bytes.Buffer
-	for k, v := range files {
+	//
+	// The notes are collected in a fixed order (parent chart first, then
+	// subcharts by path): ranging over the map directly made the text depend
+	// on map iteration order whenever several NOTES.txt files are rendered.
+	var notesFiles []string
+	for k := range files {
 		if strings.HasSuffix(k, notesFileSuffix) {
-			if subNotes || (k == path.Join(ch.Name(), "templates", notesFileSuffix)) {
-				// If buffer contains data, add newline before adding more
-				if notesBuffer.Len() > 0 {
-					notesBuffer.WriteString("\n")
-				}
-				notesBuffer.WriteString(v)
-			}
-			delete(files, k)
+			notesFiles = append(notesFiles, k)
 		}
+	}
+	sort.Slice(notesFiles, func(i, j int) bool {
+		if di, dj := strings.Count(notesFiles[i], "/"), strings.Count(notesFiles[j], "/"); di != dj {
+			return di < dj
+		}
+		return notesFiles[i] < notesFiles[j]
+	})
+	var notesBuffer bytes.Buffer
+	for _, k := range notesFiles {
+		if subNotes || (k == path.Join(ch.Name(), "templates", notesFileSuffix)) {
+			// If buffer contains data, add newline before adding more
+			if notesBuffer.Len() > 0 {
+				notesBuffer.WriteString("\n")
+			}
+			notesBuffer.WriteString(files[k])
+		}
+		delete(files, k)
 	}
 	notes := notesBuffer.String()
 
